@@ -55,21 +55,35 @@ struct Hash { template <class A> size_t operator()(A const& a) const { return mk
 struct Hash2 { template <class A> size_t operator()(A const& a) const { return mkhash2(key_of(a)); } };
 
 // ---- result of one abstract operation and the recording functors
-struct R { bool ok = false; long inst = -1; bool inserted = false; long key = 0; int calls = 0; bool drop = false; /* the result puts no constraint on the model: leave the op out of the checked history */ };
-struct InsF { R* r; template <class V> void operator()(V& item) const { ++r->calls; r->inst = inst_of(item); } };
+struct R { bool ok = false; long inst = -1; bool inserted = false; long key = 0; int calls = 0; bool poisoned = false, overlap = false; bool drop = false; /* the result puts no constraint on the model: leave the op out of the checked history */ };
+// Functors run inside the container's protection (bucket lock, node monitor, guard, RCU section). A schedule point inside them lets the
+// scheduler park the caller there; if the protection is broken another thread can remove and free the element meanwhile, and the
+// functor then reads freed (0xDD-poisoned) memory.
+static const long POISON_INST = (long)0xDDDDDDDDDDDDDDDDULL;
+// Lock-based containers (striped, cuckoo) call every functor under the bucket lock(s) of the element: two functors running on the same
+// key at the same time mean that two threads are inside one bucket, i.e. the container's locking is broken even if no result shows it.
+extern bool g_exclusive_functors; extern int g_functor_occupancy[64];   // (defined in harness/core.cpp; set per run by the lock-based adapters)
+template <class V> inline long observe(R* r, V& item, bool linked = true) {   // linked = false: erase functors see an element that is already unlinked and may run after the locks are dropped
+    long a = inst_of(item); int slot = (int)(key_of(item) & 63); bool excl = g_exclusive_functors && linked;
+    if (excl && ++g_functor_occupancy[slot] != 1) r->overlap = true;
+    dsim::point(dsim::K_USER);
+    if (excl) --g_functor_occupancy[slot];
+    long b = inst_of(item); if (a == POISON_INST || b == POISON_INST) r->poisoned = true; return b;
+}
+struct InsF { R* r; template <class V> void operator()(V& item) const { ++r->calls; r->inst = observe(r, item); } };
 struct UpdF {
     R* r;
-    template <class V, class Q> void operator()(bool bNew, V& item, Q const&) const { ++r->calls; r->inserted = bNew; r->inst = inst_of(item); }
-    template <class V> void operator()(bool bNew, V& item) const { ++r->calls; r->inserted = bNew; r->inst = inst_of(item); }
-    template <class V> void operator()(V& cur, V* old) const { ++r->calls; r->inserted = (old == nullptr); r->inst = old ? inst_of(*old) : inst_of(cur); }
-    template <class V> void operator()(V& cur, std::nullptr_t) const { ++r->calls; r->inserted = true; r->inst = inst_of(cur); }
+    template <class V, class Q> void operator()(bool bNew, V& item, Q const&) const { ++r->calls; r->inserted = bNew; r->inst = observe(r, item); }
+    template <class V> void operator()(bool bNew, V& item) const { ++r->calls; r->inserted = bNew; r->inst = observe(r, item); }
+    template <class V> void operator()(V& cur, V* old) const { ++r->calls; r->inserted = (old == nullptr); r->inst = old ? observe(r, *old) : observe(r, cur); }
+    template <class V> void operator()(V& cur, std::nullptr_t) const { ++r->calls; r->inserted = true; r->inst = observe(r, cur); }
 };
 struct FindF {
     R* r;
-    template <class V, class Q> void operator()(V& item, Q&) const { ++r->calls; r->inst = inst_of(item); }
-    template <class V> void operator()(V& item) const { ++r->calls; r->inst = inst_of(item); }
+    template <class V, class Q> void operator()(V& item, Q&) const { ++r->calls; r->inst = observe(r, item); }
+    template <class V> void operator()(V& item) const { ++r->calls; r->inst = observe(r, item); }
 };
-struct EraseF { R* r; template <class V> void operator()(V const& item) const { ++r->calls; r->inst = inst_of(item); } };
+struct EraseF { R* r; template <class V> void operator()(V const& item) const { ++r->calls; r->inst = observe(r, item, false); } };
 
 // ---- SMR policies
 struct SmrHP {
@@ -195,7 +209,7 @@ struct MapA {
     // maps create the mapped value inside the functor: a new element gets 'inst', an existing one is only observed
     struct MapUpd {
         R* r; long inst;
-        template <class V> void operator()(bool bNew, V& item) const { ++r->calls; r->inserted = bNew; if (bNew) item.second = inst; r->inst = inst_of(item); }
+        template <class V> void operator()(bool bNew, V& item) const { ++r->calls; r->inserted = bNew; if (bNew) item.second = inst; r->inst = observe(r, item); }
         template <class V> void operator()(V& cur, V* old) const { ++r->calls; r->inserted = (old == nullptr); cur.second = inst; r->inst = old ? inst_of(*old) : inst; }
         template <class V> void operator()(V& cur, std::nullptr_t) const { ++r->calls; r->inserted = true; cur.second = inst; r->inst = inst; }
     };
@@ -304,6 +318,9 @@ inline void gen_program(Rng& r, Program& p, int tier, const GenCfg& g0) {
 }
 
 // ---- execution
+extern const Ctx* g_consistency_ctx;   // history of the current run, for structure checks that need to know which keys were ever erased (defined in harness/core.cpp)
+template <class A> auto exclusive_of(int) -> decltype((bool)A::exclusive_functors) { return A::exclusive_functors; }
+template <class A> bool exclusive_of(long) { return false; }
 template <class A> auto after_smr_of(Ctx& c, int) -> decltype(A::after_smr(c), void()) { A::after_smr(c); }
 template <class A> void after_smr_of(Ctx&, long) {}
 template <class A> auto clear_of(A& a, int) -> decltype(a.clear(), void()) { a.clear(); }
@@ -330,12 +347,14 @@ template <class A> void record(Ctx& ctx, A& a, int thread, Op op) {
     R r = apply(a, op, newinst);
     ctx.end_op(h, r.ok, r.inst, (op.kind == EXTRACT_MIN || op.kind == EXTRACT_MAX) ? r.key : (long)r.inserted);
     if (r.drop) ctx.hist[h].done = false;
+    if (r.overlap) ctx.fail("functor-overlap", "%s(%ld): the user functor ran while another thread's functor was running on the same key although the container calls functors under the element's bucket lock: two threads were inside one bucket", opnames[op.kind], op.a);
+    if (r.poisoned) ctx.fail("freed-element-observed", "%s(%ld): the element handed to the user functor was freed while the functor was running (the lock / guard / critical section that should protect it did not)", opnames[op.kind], op.a);
     if (r.calls < 0) ctx.fail("functor-call-count", "%s(%ld): the user functor was not called exactly as documented (once on success, never on failure)", opnames[op.kind], op.a);
 }
 
 template <class A> void run(Ctx& ctx) {
     const Program& P = *ctx.prog;
-    g_hash_mode = (int)P.knob("hash_mode");
+    g_hash_mode = (int)P.knob("hash_mode"); g_exclusive_functors = exclusive_of<A>(0); memset(g_functor_occupancy, 0, sizeof g_functor_occupancy);
     {
         typename A::Smr smr(P);
         cds::threading::Manager::attachThread();
@@ -369,7 +388,8 @@ template <class A> void run(Ctx& ctx) {
             long sz = a.size();
             if (sz >= 0 && sz != (long)present.size()) ctx.fail("size-mismatch", "size() reports %ld but %d keys are present at quiescence", sz, (int)present.size());
             if (sz >= 0 && a.empty() != present.empty()) ctx.fail("size-mismatch", "empty() reports %d but %d keys are present at quiescence", (int)a.empty(), (int)present.size());
-            std::string why; if (!a.consistent(why)) ctx.fail("inconsistent-structure", "%s", why.c_str());
+            g_consistency_ctx = &ctx;
+            std::string why; if (!a.consistent(why)) { std::string cls = "inconsistent-structure"; if (why.size() > 1 && why[0] == '@') { size_t e = why.find(' '); cls = why.substr(1, e - 1); why = why.substr(e + 1); } ctx.fail(cls.c_str(), "%s", why.c_str()); }   // "@class text" lets an adapter name a more specific class
             a.probes(ctx);
         }
         cds::threading::Manager::detachThread();
